@@ -87,7 +87,8 @@ def main(tier='quick', seed=0):
         'function of the word; DEPENDENCY.sub("", s) returns s when s has no "{"; the leaf body word/word/pos/inflection splits at "/" into four slash-free fields, the first being the word',
         'the PTB half (_parse_ptb, a stack machine over "word)))" items), the bank annotations ({Ik}, _I1(...)) and the file-level readers are decided by the BOUNDED stand-in (never counted as proved)',
     ]
+    assumptions.append('Category.parse(str(c)) = c is used as a contract of depccg/cat.py: its bounded validation (bounded/c05_real.py: every category up to a size, blanks and redundant brackets, the shipped strings) runs inside this check as well')
     extra = dict(functions_under_contract=['depccg/printer/ja.py::ja_of.rec', 'depccg/tools/ja/reader.py::_JaCCGLineReader.parse_leaf', 'depccg/tools/ja/reader.py::_JaCCGLineReader.parse_tree',
                                            'depccg/tools/ja/reader.py::_JaCCGLineReader.next_node (inlined)', 'depccg/tools/ja/reader.py::_JaCCGLineReader.next (next-lemma-ja, characters)'],
                  bounded_functions=['depccg/printer/ptb.py::ptb_of', 'depccg/tools/reader.py::_parse_ptb / read_ptb', 'depccg/tools/ja/reader.py::read_ccgbank'])
-    return c12.finish_with(PROP, tier, seed, t0, records, errors, extra, assumptions, ['printers_real.py'], level='exploration')
+    return c12.finish_with(PROP, tier, seed, t0, records, errors, extra, assumptions, ['printers_real.py', 'c05_real.py'], level='exploration')
